@@ -347,7 +347,7 @@ func (k *Walker) resetWithReflog(hostilePct int) {
 }
 
 func runC08(c *core.Ctx) {
-	n := c.Pick(130, 3000)
+	n := c.Pick(500, 4000)
 	c.RunHistories(n, Registry["C08"].Mons, func(w *core.World) {
 		wts := map[string]int{
 			"edit-new": 10, "edit-mod": 12, "edit-rm": 6, "edit-rmdir": 4,
@@ -572,7 +572,7 @@ func messageClass(m string) string {
 }
 
 func runC11(c *core.Ctx) {
-	n := c.Pick(130, 3000)
+	n := c.Pick(500, 4000)
 	tzs, err := gen.WriteTZFiles(c.Scratch + "/tz")
 	if err != nil {
 		c.Broken("tz files: " + err.Error())
